@@ -26,9 +26,12 @@ import (
 	"math/big"
 	"math/rand"
 	"os"
+	"os/exec"
 	"regexp"
 	"strconv"
 	"strings"
+	"sync"
+	"syscall"
 	"time"
 	uc "unicode"
 
@@ -37,6 +40,7 @@ import (
 
 func init() {
 	vRegister("c20_tv", c20TV)
+	vRegister("c20_script", c20Script)
 	vRegister("c20_catalogue", c20Catalogue)
 	vRegister("c20_mbt", c20MBT)
 }
@@ -224,7 +228,18 @@ func c20Name(f c20Family, w int, salt int) string {
 // ---------------------------------------------------------------- observation of one call
 
 var c20CsiD = regexp.MustCompile(`^\x1b\[(\d+)D`)
-var c20SgrTail = regexp.MustCompile(`\x1b\[[0-9;]*m$`)
+
+// c20SgrLen: length of an SGR sequence ESC [ (digit | ;)* m at the end of s, 0 if there is none
+func c20SgrLen(s string) int {
+	i := len(s) - 2
+	for i >= 0 && (s[i] == ';' || (s[i] >= '0' && s[i] <= '9')) {
+		i--
+	}
+	if i >= 1 && s[i] == '[' && s[i-1] == 0x1b {
+		return len(s) - (i - 1)
+	}
+	return 0
+}
 
 func c20EmptyObs(res string) map[string]any {
 	return map[string]any{"res": res, "nf": 0, "k": 0, "match": "", "bar": false, "total": 0, "full": 0,
@@ -264,8 +279,8 @@ func c20Observe(out string, L string) map[string]any {
 			case strings.HasSuffix(head, "░"):
 				e++
 				pos -= 3
-			case strings.HasSuffix(head, "m") && c20SgrTail.MatchString(head):
-				pos -= len(c20SgrTail.FindString(head))
+			case strings.HasSuffix(head, "m") && c20SgrLen(head) > 0:
+				pos -= c20SgrLen(head)
 			case strings.HasSuffix(head, "["):
 				pos--
 				found = true
@@ -337,18 +352,27 @@ func c20Observe(out string, L string) map[string]any {
 // ---------------------------------------------------------------- one recorded run
 
 var c20BadNames int
+var c20NameCache = map[string][][]int{}
 
+// A run is one textProgressBar from newTextProgressBar on.  Its events are buffered and written
+// to the trace when the run ends.  Every event carries, besides what ProgressTrace.tla reads,
+// what is needed to repeat the call (name text, values as decimal strings, clock advance), so a
+// run's event list is also its replay script (c20_script).
 type c20Run struct {
 	tr      *vTrace
+	events  []map[string]any
 	w       *c20Writer
 	p       *textProgressBar
 	count   int
 	idx     int
 	name    string
 	now     time.Time
-	lastAt  time.Time // clock at the last call that wrote a line
+	adv     time.Duration // clock advance since the previous call
+	lastAt  time.Time     // clock at the last call that wrote a line
 	hasLast bool
 	dead    bool // panic, or step/size left the sane range: the run ends
+	probe   map[string]any // a call that is too dangerous to make in this process (see wild)
+	noProbe bool
 	renders int
 	panics  int
 	fuzzy   int
@@ -364,8 +388,22 @@ func c20NewRun(tr *vTrace, cols, pane int, colour bool) *c20Run {
 	}
 	c20Clock = r.now
 	r.p = newTextProgressBar(r.w, int32(cols), int32(pane), "", pair)
-	tr.Emit(map[string]any{"e": "new", "cols": cols, "pane": pane, "colour": colour}, nil)
+	r.emit(map[string]any{"e": "new", "cols": cols, "pane": pane, "colour": colour})
 	return r
+}
+
+func (r *c20Run) emit(ev map[string]any) {
+	ev["adv"] = strconv.FormatInt(int64(r.adv), 10)
+	r.adv = 0
+	r.events = append(r.events, ev)
+}
+
+func (r *c20Run) flush() {
+	if r.tr != nil {
+		for _, ev := range r.events {
+			r.tr.Emit(ev, nil)
+		}
+	}
 }
 
 func (r *c20Run) left() string {
@@ -375,7 +413,7 @@ func (r *c20Run) left() string {
 	return r.name
 }
 
-func (r *c20Run) advance(d time.Duration) { r.now = r.now.Add(d); c20Clock = r.now }
+func (r *c20Run) advance(d time.Duration) { r.now = r.now.Add(d); r.adv += d; c20Clock = r.now }
 
 func (r *c20Run) call(fn func()) (panicMsg string) {
 	defer func() {
@@ -386,6 +424,7 @@ func (r *c20Run) call(fn func()) (panicMsg string) {
 			}
 		}
 	}()
+	c20Clock = r.now
 	fn()
 	return ""
 }
@@ -399,7 +438,7 @@ func (r *c20Run) simple(ev map[string]any, fn func()) {
 		r.dead = true
 		r.panics++
 	}
-	r.tr.Emit(ev, nil)
+	r.emit(ev)
 }
 
 func (r *c20Run) num(n int) {
@@ -413,19 +452,34 @@ func (r *c20Run) setName(name string) {
 	if r.count > 1 {
 		ctx = fmt.Sprintf("(%d/%d) ", r.idx, r.count)
 	}
-	if !c20CodesOK(ctx, name) { // the rune codes would not describe this name: use a plain one of the same width
+	// the join flags depend on the context only through its last rune (a blank): cache per name
+	key := "-\x00" + name
+	if ctx != "" {
+		key = "+\x00" + name
+	}
+	runs, ok := c20NameCache[key]
+	if !ok {
+		if c20CodesOK(ctx, name) {
+			runs = c20RLE(c20Codes(ctx, name))
+		}
+		c20NameCache[key] = runs
+	}
+	if runs == nil { // the rune codes would not describe this name: use a plain one of the same width
 		c20BadNames++
 		name = strings.Repeat("n", runewidth.StringWidth(name))
+		runs = c20RLE(c20Codes(ctx, name))
 	}
 	r.name = name
-	r.simple(map[string]any{"e": "name", "rs": c20RLE(c20Codes(ctx, name))}, func() { r.p.onName(name) })
+	r.simple(map[string]any{"e": "name", "rs": runs, "name": name}, func() { r.p.onName(name) })
 }
 
+func c20Dec(v int64) string { return strconv.FormatInt(v, 10) }
+
 func (r *c20Run) size(v int64) {
-	r.simple(map[string]any{"e": "size", "v": c20Num(v)}, func() { r.p.onSize(v) })
+	r.simple(map[string]any{"e": "size", "v": c20Num(v), "vs": c20Dec(v)}, func() { r.p.onSize(v) })
 }
 func (r *c20Run) preSize(v int64) {
-	r.simple(map[string]any{"e": "presize", "v": c20Num(v)}, func() { r.p.setPreSize(v) })
+	r.simple(map[string]any{"e": "presize", "v": c20Num(v), "vs": c20Dec(v)}, func() { r.p.setPreSize(v) })
 }
 func (r *c20Run) cols(c int) {
 	r.simple(map[string]any{"e": "cols", "c": c}, func() { r.p.setTerminalColumns(int32(c)) })
@@ -452,8 +506,25 @@ func c20NearTie(k int, step, size int64) bool {
 	return d.Cmp(lim) < 0
 }
 
-// render is a step or done call: shadow fields, the call, the observation, the event
-func (r *c20Run) render(ev map[string]any, fn func()) map[string]any {
+// wild: the call would draw with |fileStep| > 4 |fileSize| (or a negative size and a large step).
+// getProgressBar then asks strings.Repeat / its colour loop for total*ratio cells: gigabytes of
+// memory or hours of CPU in *this* process.  Such a call is made in a child process under a
+// memory limit and a timeout (c20Probe) and its outcome (panic | crash | hang | rendered) is the
+// observation.
+func (r *c20Run) wild(step int64) bool {
+	size := r.p.fileSize
+	if size == 0 || r.p.pausing.Load() || step <= r.p.fileStep {
+		return false
+	}
+	x, z := new(big.Int).Abs(big.NewInt(step)), new(big.Int).Abs(big.NewInt(size))
+	z.Lsh(z, 2)
+	if size > 0 {
+		return step > size && x.Cmp(z) > 0
+	}
+	return x.Cmp(z) > 0
+}
+
+func (r *c20Run) dtms() int {
 	dt := int64(0)
 	if r.hasLast {
 		ns := int64(r.now.Sub(r.lastAt))
@@ -468,6 +539,19 @@ func (r *c20Run) render(ev map[string]any, fn func()) map[string]any {
 			dt = -1e9
 		}
 	}
+	return int(dt)
+}
+
+// render is a step or done call: shadow fields, the call, the observation, the event
+func (r *c20Run) render(ev map[string]any, willStep int64, fn func()) map[string]any {
+	ev["dt"] = r.dtms()
+	if !r.noProbe && r.wild(willStep) {
+		ev["lens"] = map[string]any{"t": 0, "s": 0, "e": 0}
+		ev["fz"] = false
+		r.probe = ev
+		r.dead = true
+		return c20EmptyObs("probe")
+	}
 	rs := r.p.recentSpeed // copy (arrays are values)
 	msg := r.call(fn)
 	out := r.w.take()
@@ -480,7 +564,6 @@ func (r *c20Run) render(ev map[string]any, fn func()) map[string]any {
 		speedStr = fmt.Sprintf("%s/s", convertSizeToString(speed))
 		etaStr = fmt.Sprintf("%s ETA", convertTimeToString(math.Round(float64(r.p.fileSize-r.p.fileStep)/speed)))
 	}
-	ev["dt"] = int(dt)
 	ev["lens"] = map[string]any{"t": len(total), "s": len(speedStr), "e": len(etaStr)}
 	var o map[string]any
 	if msg != "" {
@@ -523,15 +606,168 @@ func (r *c20Run) render(ev map[string]any, fn func()) map[string]any {
 		r.dead = true
 	}
 	r.classes[cls+"/"+o["res"].(string)]++
-	r.tr.Emit(ev, nil)
+	r.emit(ev)
 	return o
 }
 
 func (r *c20Run) step(v int64) map[string]any {
-	return r.render(map[string]any{"e": "step", "v": c20Num(v)}, func() { r.p.onStep(v) })
+	return r.render(map[string]any{"e": "step", "v": c20Num(v), "vs": c20Dec(v)}, v+r.p.preSize, func() { r.p.onStep(v) })
 }
 func (r *c20Run) done() map[string]any {
-	return r.render(map[string]any{"e": "done", "v": c20Num(0)}, func() { r.p.onDone() })
+	return r.render(map[string]any{"e": "done", "v": c20Num(0), "vs": "0"}, r.p.fileStep, func() { r.p.onDone() })
+}
+
+// c20Replay repeats a run from its event list (the fields name / vs / adv / cols / pane ...).
+func c20Replay(tr *vTrace, script []map[string]any, noProbe bool) *c20Run {
+	var r *c20Run
+	num := func(v any) int {
+		f, _ := v.(float64)
+		return int(f)
+	}
+	i64 := func(v any) int64 {
+		s, _ := v.(string)
+		n, _ := strconv.ParseInt(s, 10, 64)
+		return n
+	}
+	for _, ev := range script {
+		if ev["e"] == "new" {
+			r = c20NewRun(tr, num(ev["cols"]), num(ev["pane"]), ev["colour"] == true)
+			r.noProbe = noProbe
+			continue
+		}
+		if r == nil || r.dead {
+			break
+		}
+		r.advance(time.Duration(i64(ev["adv"])))
+		switch ev["e"] {
+		case "num":
+			r.num(num(ev["n"]))
+		case "name":
+			nm, _ := ev["name"].(string)
+			r.setName(nm)
+		case "size":
+			r.size(i64(ev["vs"]))
+		case "presize":
+			r.preSize(i64(ev["vs"]))
+		case "cols":
+			r.cols(num(ev["c"]))
+		case "pause":
+			r.pause(ev["b"] == true)
+		case "step":
+			r.step(i64(ev["vs"]))
+		case "done":
+			r.done()
+		}
+	}
+	return r
+}
+
+// c20Script (driver c20_script): replays the scripts of $VERIF_OUT/scripts.ndjson (one run per
+// line: {"run":[events]}) into trace-00.ndjson.  With "limit" the address space is capped first:
+// this is how a wild call is made in a child process.
+func c20Script(d *vCtx) error {
+	defer c20InstallClock()()
+	if gb := d.pInt("limitgb", 0); gb > 0 {
+		lim := syscall.Rlimit{Cur: uint64(gb) << 30, Max: uint64(gb) << 30}
+		if err := syscall.Setrlimit(syscall.RLIMIT_AS, &lim); err != nil {
+			return err
+		}
+	}
+	lines, err := vReadNDJSON(d.pStr("scripts", d.path("scripts.ndjson")))
+	if err != nil {
+		return err
+	}
+	tr, err := vNewTrace(d.path("trace-00.ndjson"))
+	if err != nil {
+		return err
+	}
+	runs := 0
+	for _, ln := range lines {
+		arr, _ := ln["run"].([]any)
+		var script []map[string]any
+		for _, x := range arr {
+			if m, ok := x.(map[string]any); ok {
+				script = append(script, m)
+			}
+		}
+		r := c20Replay(tr, script, d.pBool("noprobe", true))
+		if r != nil {
+			r.flush()
+			_ = tr.w.Flush()
+			runs++
+		}
+	}
+	d.set("runs", runs)
+	d.set("events", tr.Len())
+	return tr.Close()
+}
+
+// c20Probe makes the pending wild call of run r in a child process (this test binary, driver
+// c20_script, address space capped, killed after `timeout`) and appends the observed event.
+func c20Probe(d *vCtx, r *c20Run, n int, timeout time.Duration) string {
+	dir := d.path(fmt.Sprintf("probe-%03d", n))
+	_ = os.MkdirAll(dir, 0o755)
+	script := append(append([]map[string]any{}, r.events...), r.probe)
+	r.probe["adv"] = strconv.FormatInt(int64(r.adv), 10)
+	f, err := os.Create(dir + "/scripts.ndjson")
+	if err == nil {
+		enc := json.NewEncoder(f)
+		enc.SetEscapeHTML(false)
+		_ = enc.Encode(map[string]any{"run": script})
+		f.Close()
+	}
+	cmd := exec.Command(os.Args[0], "-test.run", "^TestVerifDriver$")
+	cmd.Env = append(os.Environ(), "VERIF_DRIVER=c20_script", "VERIF_OUT="+dir, `VERIF_PARAMS={"limitgb":6,"noprobe":true}`)
+	var errb strings.Builder
+	cmd.Stderr = &errb
+	cmd.Stdout = &errb
+	res := ""
+	if err := cmd.Start(); err != nil {
+		res = "spawn-failed"
+	} else {
+		done := make(chan error, 1)
+		go func() { done <- cmd.Wait() }()
+		select {
+		case <-done:
+		case <-time.After(timeout):
+			_ = cmd.Process.Kill()
+			<-done
+			res = "hang"
+		}
+	}
+	o := c20EmptyObs(res)
+	ev := r.probe
+	if res == "" {
+		evs, _ := vReadNDJSON(dir + "/trace-00.ndjson")
+		if len(evs) == len(script) {
+			last := evs[len(evs)-1]
+			ev["lens"], ev["fz"] = last["lens"], last["fz"]
+			if om, ok := last["out"].(map[string]any); ok {
+				o = om
+				res, _ = om["res"].(string)
+			}
+		} else {
+			res = "crash"
+			o = c20EmptyObs(res)
+			msg := errb.String()
+			for _, ln := range strings.Split(msg, "\n") {
+				if strings.HasPrefix(ln, "fatal error:") || strings.HasPrefix(ln, "panic:") || strings.HasPrefix(ln, "runtime:") {
+					msg = ln
+					break
+				}
+			}
+			if len(msg) > 200 {
+				msg = msg[:200]
+			}
+			o["msg"] = msg
+		}
+	}
+	ev["out"] = o
+	ev["child"] = true
+	r.events = append(r.events, ev)
+	r.probe = nil
+	_ = os.RemoveAll(dir)
+	return res
 }
 
 // ---------------------------------------------------------------- c20_tv
@@ -539,9 +775,26 @@ func (r *c20Run) done() map[string]any {
 type c20Stats struct {
 	runs, events, renders, panics, fuzzy, desync int
 	classes                                     map[string]int
+	pending                                     []*c20Run // runs that end in a wild call
+	probeKeys                                   map[string]bool
+	maxProbes, wildSkipped                      int
 }
 
 func (s *c20Stats) add(r *c20Run) {
+	if r.probe != nil {
+		// one child process per kind of wild call
+		key := fmt.Sprintf("%v/%v/%v/%v", r.p.colorA != nil, r.p.fileSize < 0, r.p.columns.Load() >= 40, r.probe["e"])
+		if s.probeKeys[key] || len(s.pending) >= s.maxProbes {
+			s.wildSkipped++
+			r.probe = nil
+		} else {
+			s.probeKeys[key] = true
+			s.pending = append(s.pending, r)
+		}
+	}
+	if r.probe == nil {
+		r.flush()
+	}
 	s.runs++
 	s.renders += r.renders
 	s.panics += r.panics
@@ -571,10 +824,14 @@ func c20TV(d *vCtx) error {
 		}
 		traces[i] = t
 	}
-	st := &c20Stats{classes: map[string]int{}}
-	rng := d.rng(20)
+	st := &c20Stats{classes: map[string]int{}, probeKeys: map[string]bool{}, maxProbes: d.pInt("probes", 8)}
 	k := 0
 	next := func() *vTrace { k++; return traces[k%shards] }
+	// the driver is run as `parts` processes (the mocked clock is a package variable, so one
+	// process cannot drive bars in parallel); this one takes every run with number = part (mod parts)
+	part, parts := d.pInt("part", 0), d.pInt("parts", 1)
+	runNo := 0
+	mine := func() bool { runNo++; return runNo%parts == part }
 	sizes := []int64{1000, 1 << 20, 3, 1 << 62, 0, 1<<53 + 1, 7 << 40, 1}
 
 	// A. ladder sweeps: one name, every terminal width, increasing steps, varying speeds
@@ -585,9 +842,12 @@ func c20TV(d *vCtx) error {
 				continue
 			}
 			sweep++
+			if !mine() {
+				continue
+			}
 			count := []int{1, 12, 1000, 0, 2147483647}[sweep%5]
 			size := sizes[sweep%len(sizes)]
-			r := c20NewRun(next(), maxCols, 0, sweep%4 == 3)
+			r := c20NewRun(next(), maxCols, 0, sweep%16 == 3)
 			r.num(count)
 			if sweep%7 == 0 { // a second file: idx 2
 				r.setName("first")
@@ -629,8 +889,11 @@ func c20TV(d *vCtx) error {
 		if pane > 130 && pane%colStride != 0 {
 			continue
 		}
+		if !mine() {
+			continue
+		}
 		f := c20Families[pane%len(c20Families)]
-		r := c20NewRun(next(), 300-pane/2, pane, pane%5 == 0)
+		r := c20NewRun(next(), 300-pane/2, pane, pane%16 == 0)
 		r.num(pane % 3)
 		r.setName(c20Name(f, (pane*7)%61, pane))
 		r.size(5000)
@@ -667,12 +930,15 @@ func c20TV(d *vCtx) error {
 					if d.pBool("seqsample", false) && (cs+int(d.seed))%4 != 0 {
 						continue
 					}
+					if !mine() {
+						continue
+					}
 					cols := seqCols[cs%len(seqCols)]
 					pane := 0
 					if cs%11 == 0 {
 						pane = cols
 					}
-					r := c20NewRun(next(), cols, pane, cs%3 == 0)
+					r := c20NewRun(next(), cols, pane, cs%6 == 0)
 					r.num(1 + cs%2)
 					r.setName(c20Name(c20Families[cs%len(c20Families)], cs%37, cs))
 					pre := int64(0)
@@ -717,6 +983,10 @@ func c20TV(d *vCtx) error {
 	}
 	// D. random runs
 	for i := 0; i < nrand; i++ {
+		if !mine() {
+			continue
+		}
+		rng := d.rng(int64(1000 + i))
 		cols := 1 + rng.Intn(maxCols)
 		if rng.Intn(3) == 0 {
 			cols = 1 + rng.Intn(60)
@@ -725,7 +995,7 @@ func c20TV(d *vCtx) error {
 		if rng.Intn(4) == 0 {
 			pane = rng.Intn(maxCols + 1)
 		}
-		r := c20NewRun(next(), cols, pane, rng.Intn(3) == 0)
+		r := c20NewRun(next(), cols, pane, rng.Intn(8) == 0)
 		r.num([]int{0, 1, 2, 9, 10, 99, 100, 12345, 2147483647}[rng.Intn(9)])
 		files := 1 + rng.Intn(3)
 		for fno := 0; fno < files && !r.dead; fno++ {
@@ -801,6 +1071,29 @@ func c20TV(d *vCtx) error {
 		}
 		st.add(r)
 	}
+	// the wild calls, each in its own child process
+	var wg sync.WaitGroup
+	var mu sync.Mutex
+	probeRes := map[string]int{}
+	sem := make(chan struct{}, 8)
+	for i, r := range st.pending {
+		wg.Add(1)
+		go func(i int, r *c20Run) {
+			defer wg.Done()
+			sem <- struct{}{}
+			res := c20Probe(d, r, i, time.Duration(d.pInt("probetimeout", 3))*time.Second)
+			<-sem
+			mu.Lock()
+			probeRes[res]++
+			mu.Unlock()
+		}(i, r)
+	}
+	wg.Wait()
+	for _, r := range st.pending {
+		r.flush()
+	}
+	d.set("probes", probeRes)
+	d.set("wild_skipped", st.wildSkipped)
 	events := 0
 	for _, t := range traces {
 		events += t.Len()
@@ -856,7 +1149,7 @@ func c20Catalogue(d *vCtx) error {
 	}
 	defer f.Close()
 	enc := json.NewEncoder(f)
-	n := 0
+	var inClass, outClass []map[string]any
 	for _, g := range grid {
 		start := c20Epoch
 		now := start.Add(g.el)
@@ -893,15 +1186,38 @@ func c20Catalogue(d *vCtx) error {
 			continue
 		}
 		seen[key] = true
-		n++
 		el := int64(g.el / time.Millisecond)
 		if el > 1e9 {
 			el = 1e9
 		}
-		_ = enc.Encode(map[string]any{"id": n, "size": c20Num(g.size), "step": c20Num(g.step), "el": int(el),
+		w := map[string]any{"size": c20Num(g.size), "step": c20Num(g.step), "el": int(el),
 			"elns": strconv.FormatInt(int64(g.el), 10), "lens": map[string]any{"t": len(total), "s": len(speedStr), "e": len(etaStr)},
-			"texts": []string{pct, total, speedStr, etaStr}})
+			"texts": []string{pct, total, speedStr, etaStr}}
+		if cls == "ok" {
+			inClass = append(inClass, w)
+		} else {
+			outClass = append(outClass, w)
+		}
 	}
+	// at most maxwit witnesses: all the out-of-range ones, the others evenly thinned (rotated by the seed)
+	maxwit := d.pInt("maxwit", 40)
+	keep := maxwit - len(outClass)
+	if keep < 8 {
+		keep = 8
+	}
+	n := 0
+	for i, w := range append(inClass, outClass...) {
+		if i < len(inClass) && len(inClass) > keep {
+			stride := (len(inClass) + keep - 1) / keep
+			if (i+int(d.seed))%stride != 0 {
+				continue
+			}
+		}
+		n++
+		w["id"] = n
+		_ = enc.Encode(w)
+	}
+	d.set("witnesses_available", len(inClass)+len(outClass))
 	d.set("witnesses", n)
 	return nil
 }
@@ -1002,6 +1318,7 @@ func c20MBT(d *vCtx) error {
 			}
 		}
 		results = append(results, res)
+		r.flush()
 	}
 	_ = tr.Close()
 	d.set("replayed", len(cases)-unreal)
